@@ -261,6 +261,34 @@ func (c *Check) Finish() {
 			}
 		}
 	}
+	// fold in the results of auxiliary passes of the same ./check invocation (VERIF_SIDE=<name> runs)
+	sideViolations := 0
+	if d := os.Getenv("VERIF_RUN_DIR"); d != "" && os.Getenv("VERIF_SIDE") == "" {
+		if names, _ := filepath.Glob(filepath.Join(d, "side-"+c.Property+"-*.json")); len(names) > 0 {
+			sort.Strings(names)
+			for _, n := range names {
+				raw, err := os.ReadFile(n)
+				if err != nil {
+					continue
+				}
+				var side map[string]any
+				if json.Unmarshal(raw, &side) != nil {
+					continue
+				}
+				name := strings.TrimSuffix(strings.TrimPrefix(filepath.Base(n), "side-"+c.Property+"-"), ".json")
+				cov["pass_"+name] = side["coverage"]
+				if v, ok := side["violations"].(float64); ok {
+					sideViolations += int(v)
+				}
+				if as, ok := side["assumptions"].([]any); ok {
+					for _, a := range as {
+						c.assume = append(c.assume, fmt.Sprintf("[%s] %v", name, a))
+					}
+				}
+			}
+		}
+	}
+	concViolations += sideViolations
 	knownList := make([]string, 0, len(c.known))
 	for k := range c.known {
 		knownList = append(knownList, k)
@@ -286,6 +314,19 @@ func (c *Check) Finish() {
 	if err != nil {
 		fmt.Fprintf(os.Stderr, "evidence marshal: %v\n", err)
 		os.Exit(2)
+	}
+	if side := os.Getenv("VERIF_SIDE"); side != "" && os.Getenv("VERIF_RUN_DIR") != "" {
+		// auxiliary pass: leave the result for the main harness of this invocation, which writes the evidence file
+		out := filepath.Join(os.Getenv("VERIF_RUN_DIR"), "side-"+c.Property+"-"+side+".json")
+		if err := os.WriteFile(out, body, 0o644); err != nil {
+			fmt.Fprintf(os.Stderr, "side result write: %v\n", err)
+			os.Exit(2)
+		}
+		fmt.Printf("%s %s [%s pass]: %d violation(s), %.1fs\n", c.Property, Tier(), side, nviol, time.Since(c.start).Seconds())
+		if nviol > 0 {
+			os.Exit(1)
+		}
+		os.Exit(0)
 	}
 	tmp := c.evidencePath() + ".tmp"
 	if err := os.WriteFile(tmp, body, 0o644); err != nil {
